@@ -67,7 +67,7 @@ ALL = {
    "Write histories are compared byte for byte with a reference log image after every entry, read back, cut at every offset (crash points), written through a writer failing at every k-th call, and interleaved with unencodable entries at every position; the reader must return exactly the complete entries then errors forever.",
    T + "; long logs (> 4 KiB) included to cross the reader's buffer.", "DESIGN.md §3 C20"),
 }
-BUILT_IDS = ["C01","C02","C03","C04","C05","C06","C07","C08","C09","C17","C18","C19","C20"]
+BUILT_IDS = sorted(ALL)
 BUILT = {k: ALL[k] for k in BUILT_IDS}
 
 NOT_YET = {}
